@@ -210,6 +210,7 @@ Proof.
   intros p bd forder f fd H w Hw. unfold sem_factor in H. inv_bind H as pfd Hfd H. inv_bind H as nl Hnl H.
   destruct (is_simple pfd); [inversion H; subst; discriminate|].
   inv_bind H as q Hq H. destruct q as [[[deps width] stride] start].
+  match type of H with (if ?c then _ else _) = _ => destruct c; [discriminate|] end.
   inv_bind H as tabs Ht H. inv_bind H as enc He H. inv_bind H as pdeps Hp H. inversion H; subst. cbn in Hw. inversion Hw; subst. cbn.
   split.
   - rewrite (enc_table_length _ _ _ _ He). apply accepted_tables_length in Ht. rewrite Ht in Hnl. inversion Hnl. reflexivity.
@@ -944,6 +945,7 @@ Proof.
   intros p bd forder f dfd H. unfold sem_factor in H. inv_bind H as fd Hfd H. inv_bind H as nl Hnl H.
   exists fd. split; [exact Hfd|]. destruct (is_simple fd); [inversion H; subst; exact Hnl|].
   inv_bind H as q Hq H. destruct q as [[[deps width] stride] start].
+  match type of H with (if ?c then _ else _) = _ => destruct c; [discriminate|] end.
   inv_bind H as tabs Ht H. inv_bind H as enc He H. inv_bind H as pdeps Hp H. inversion H; subst. exact Hnl.
 Qed.
 
@@ -1103,5 +1105,6 @@ Proof.
   unfold sem_factor in Hsf. inv_bind Hsf as pfd Hpfd Hsf. inv_bind Hsf as nl Hnl Hsf.
   destruct (is_simple pfd); [inversion Hsf; subst; exact Hg|].
   inv_bind Hsf as q Hq Hsf. destruct q as [[[deps width] stride] start].
+  match type of Hsf with (if ?c then _ else _) = _ => destruct c; [discriminate|] end.
   inv_bind Hsf as tabs Ht Hsf. inv_bind Hsf as enc He Hsf. inv_bind Hsf as pdeps Hp Hsf. inversion Hsf; subst. exact Hg.
 Qed.
